@@ -18,7 +18,7 @@ func VerifC07_q_preAllocateVsFilter() {
 	size := nondetInt(0, 3)
 	pw.SetPoolSize(size)
 	before := pw.PoolCount()
-	c := &PoolController{IPAM: pw.IPAM(), LockPoolFunc: pw.LockPool}
+	c := &PoolController{PoolLister: pw.PoolLister(), IPAM: pw.IPAM(), LockPoolFunc: pw.LockPool}
 	verifSetRequestEntity(Pool{Name: "p1", Size: size, PreAllocateIP: true})
 	overlapped := pw.RunWithConcurrentFilter(nondetInt(0, 12), func() {
 		c.preAllocateIP(vReq, vResp, &Pool{Name: "p1", Size: size, PreAllocateIP: true})
